@@ -53,6 +53,8 @@ def gen_word(rng, ctx):
         k = rng.choice(["due", "n", "k", "est", "LID", "who"])
         if k == "due":
             v = "%04d-%02d-%02d" % (rng.randint(2023, 2025), rng.randint(1, 12), rng.randint(1, 28))
+            if rng.random() < 0.12:
+                v = rng.choice(["someday", "tbd", "Soon"])  # no date at all: satisfies no date comparison (C03)
         elif k in ("n", "est"):
             v = str(rng.choice([0, 10, 15, 17, 42, 100, 17, 5]))
         else:
